@@ -1,28 +1,433 @@
 /-
   C11 — line_intersection classifies and locates segment crossings exactly.
   Property theorems only. Model: GeoModel/LineIntersection.lean, GeoModel/Segment.lean.
+  Specification of a segment: `Geo.Proofs.Kernel.SegMem` (GeoProofs/Lemmas/SegmentSpec.lean);
+  case structure of the model: GeoProofs/Lemmas/LISpec.lean.
 -/
 import GeoModel.LineIntersection
+import GeoProofs.Lemmas.SegmentSpec
+import GeoProofs.Lemmas.LISpec
 import Mathlib.Tactic.NormNum
 
 namespace Geo.Proofs.C11
-open Geo
+open Geo Geo.Proofs.Kernel
+
+/-! concrete evaluations used by the non-vacuity examples -/
+
+private theorem ex_improper :
+    lineIntersection ⟨0, 0⟩ ⟨2, 0⟩ ⟨1, 0⟩ ⟨1, 1⟩ = some (.single ⟨1, 0⟩ false) := by
+  norm_num [lineIntersection, lineBBox, SM.rectNew, rectRect, orient, cross]
+  simp
+
+private theorem ex_proper :
+    lineIntersection ⟨0, 0⟩ ⟨2, 2⟩ ⟨0, 2⟩ ⟨2, 0⟩ = some (.single ⟨1, 1⟩ true) := by
+  norm_num [lineIntersection, lineBBox, SM.rectNew, rectRect, orient, cross, properPoint]
+  simp
+
+private theorem ex_collinear :
+    lineIntersection ⟨0, 0⟩ ⟨2, 2⟩ ⟨1, 1⟩ ⟨3, 3⟩ = some (.collinear ⟨1, 1⟩ ⟨2, 2⟩) := by
+  norm_num [lineIntersection, lineBBox, SM.rectNew, rectRect, orient, cross, collinearIntersection,
+    rectCoord]
+  simp
 
 /-- [T] envelope rejection: segments whose bounding boxes are disjoint have no intersection. -/
 theorem li_none_of_bbox_disjoint (p1 p2 q1 q2 : Pt)
     (h : rectRect (lineBBox p1 p2).1 (lineBBox p1 p2).2 (lineBBox q1 q2).1 (lineBBox q1 q2).2 = false) :
-    lineIntersection p1 p2 q1 q2 = none := by
-  unfold lineIntersection
-  simp [h]
+    lineIntersection p1 p2 q1 q2 = none :=
+  li_none_of_box h
+
+example : lineIntersection ⟨0, 0⟩ ⟨1, 0⟩ ⟨2, 1⟩ ⟨3, 2⟩ = none :=
+  li_none_of_bbox_disjoint _ _ _ _ (by norm_num [rectRect, lineBBox, SM.rectNew])
 
 /-- [T] both end points of `q` strictly on the same side of `p` ⇒ no intersection. -/
 theorem li_none_of_same_side (p1 p2 q1 q2 : Pt)
     (h : (orient p1 p2 q1 = .cw ∧ orient p1 p2 q2 = .cw) ∨ (orient p1 p2 q1 = .ccw ∧ orient p1 p2 q2 = .ccw)) :
     lineIntersection p1 p2 q1 q2 = none := by
-  unfold lineIntersection
-  rcases h with ⟨h1, h2⟩ | ⟨h1, h2⟩ <;> simp [h1, h2]
+  apply li_none_of_sameStrict_p
+  simp only [orient_cw_iff, orient_ccw_iff] at h
+  exact h
 
 example : lineIntersection ⟨0, 0⟩ ⟨1, 0⟩ ⟨0, 1⟩ ⟨1, 2⟩ = none :=
   li_none_of_same_side _ _ _ _ (Or.inr ⟨by norm_num [orient, cross], by norm_num [orient, cross]⟩)
+
+/-- [T] `line_intersection` answers `Some` exactly when the two closed segments share a point. -/
+theorem li_isSome_iff (p1 p2 q1 q2 : Pt) :
+    (lineIntersection p1 p2 q1 q2).isSome = true ↔ ∃ x, SegMem x p1 p2 ∧ SegMem x q1 q2 := by
+  refine li_cases p1 p2 q1 q2 (fun r => r.isSome = true ↔ ∃ x, SegMem x p1 p2 ∧ SegMem x q1 q2)
+    ?_ ?_ ?_ ?_ ?_ ?_
+  · intro hb
+    constructor
+    · intro h; cases h
+    · rintro ⟨x, h1, h2⟩
+      rw [boxMeet_of_common h1 h2] at hb; cases hb
+  · intro _ hs
+    constructor
+    · intro h; cases h
+    · intro h; exact absurd h (no_common_of_sameStrict hs)
+  · intro _ hs
+    constructor
+    · intro h; cases h
+    · intro h; exact absurd h (no_common_of_sameStrict' hs)
+  · intro _ hq1 hq2 hp1 hp2
+    rw [collinearIntersection_def, colTable_isSome]
+    constructor
+    · intro h
+      simp only [Bool.or_eq_true, Bool.and_eq_true] at h
+      have ha := fun h => (inRect_iff_SegMem hq1).mp h
+      have hb := fun h => (inRect_iff_SegMem hq2).mp h
+      have hc := fun h => (inRect_iff_SegMem hp1).mp h
+      rcases h with ((((h | h) | h) | h) | h) | h
+      · exact ⟨q1, ha h.1, SegMem_left _ _⟩
+      · exact ⟨p1, SegMem_left _ _, hc h.1⟩
+      · exact ⟨q1, ha h.1, SegMem_left _ _⟩
+      · exact ⟨q1, ha h.1, SegMem_left _ _⟩
+      · exact ⟨q2, hb h.1, SegMem_right _ _⟩
+      · exact ⟨q2, hb h.1, SegMem_right _ _⟩
+    · exact col_two_bits hq1 hq2 hp1 hp2
+  · intro _ h1 h2 h3 h4
+    constructor
+    · intro _; exact ⟨_, cascadePt_mem h1 h2 h3 h4⟩
+    · intro _; rfl
+  · intro _ h1 h2 a _ _ _
+    constructor
+    · intro _; exact ⟨_, properPoint_mem h1 h2 a⟩
+    · intro _; rfl
+
+/-- [T] `line_intersection(p, q).is_some() = p.intersects(q)` (`Line: Intersects<Line>`). -/
+theorem li_agrees_intersects (p1 p2 q1 q2 : Pt) :
+    (lineIntersection p1 p2 q1 q2).isSome = lineLine p1 p2 q1 q2 := by
+  rw [Bool.eq_iff_iff, li_isSome_iff, lineLine_iff]
+
+/-- [T] `None` exactly when the two closed segments have no common point. -/
+theorem li_none_iff (p1 p2 q1 q2 : Pt) :
+    lineIntersection p1 p2 q1 q2 = none ↔ ¬ ∃ x, SegMem x p1 p2 ∧ SegMem x q1 q2 := by
+  rw [← li_isSome_iff]
+  cases lineIntersection p1 p2 q1 q2 <;> simp
+
+example : lineIntersection ⟨0, 0⟩ ⟨2, 2⟩ ⟨0, 2⟩ ⟨2, 0⟩ ≠ none := by
+  rw [Ne, li_none_iff, not_not]
+  exact ⟨⟨1, 1⟩, ⟨1/2, by norm_num, by norm_num, by norm_num, by norm_num⟩,
+    ⟨1/2, by norm_num, by norm_num, by norm_num, by norm_num⟩⟩
+
+/-- [T] an improper single point is (a copy of) one of the four end points. -/
+theorem li_improper_endpoint (p1 p2 q1 q2 x : Pt)
+    (h : lineIntersection p1 p2 q1 q2 = some (.single x false)) :
+    x = p1 ∨ x = p2 ∨ x = q1 ∨ x = q2 := by
+  revert h
+  refine li_cases p1 p2 q1 q2 (fun r => r = some (.single x false) → x = p1 ∨ x = p2 ∨ x = q1 ∨ x = q2)
+    ?_ ?_ ?_ ?_ ?_ ?_
+  · intro _ h; cases h
+  · intro _ _ h; cases h
+  · intro _ _ h; cases h
+  · intro _ _ _ _ _ h
+    rw [collinearIntersection_def] at h
+    obtain ⟨_, _, h2⟩ := colTable_single h
+    rcases h2 with ⟨h, _⟩ | ⟨h, _⟩
+    · exact Or.inl h
+    · exact Or.inr (Or.inl h)
+  · intro _ _ _ _ _ h
+    injection h with h; injection h with h _
+    rw [← h]; exact cascadePt_endpoint _ _ _ _
+  · intro _ _ _ _ _ _ _ h
+    injection h with h; injection h with _ h; cases h
+
+example : (⟨1, 0⟩ : Pt) = ⟨0, 0⟩ ∨ (⟨1, 0⟩ : Pt) = ⟨2, 0⟩ ∨ (⟨1, 0⟩ : Pt) = ⟨1, 0⟩ ∨ (⟨1, 0⟩ : Pt) = ⟨1, 1⟩ :=
+  li_improper_endpoint _ _ _ _ _ ex_improper
+
+/-- [T] a single point answer lies on both segments (for the proper case this is
+`proper_point_on_both`: the exact Cramer point satisfies both parametrisations with parameters in
+`[0,1]`, hence lies in both envelopes). -/
+theorem li_single_on_both (p1 p2 q1 q2 x : Pt) (f : Bool)
+    (h : lineIntersection p1 p2 q1 q2 = some (.single x f)) :
+    lineCoord p1 p2 x = true ∧ lineCoord q1 q2 x = true := by
+  rw [lineCoord_iff, lineCoord_iff]
+  revert h
+  refine li_cases p1 p2 q1 q2 (fun r => r = some (.single x f) → SegMem x p1 p2 ∧ SegMem x q1 q2)
+    ?_ ?_ ?_ ?_ ?_ ?_
+  · intro _ h; cases h
+  · intro _ _ h; cases h
+  · intro _ _ h; cases h
+  · intro _ hq1 hq2 hp1 hp2 h
+    rw [collinearIntersection_def] at h
+    obtain ⟨_, h1, h2⟩ := colTable_single h
+    constructor
+    · rcases h1 with ⟨e, hb⟩ | ⟨e, hb⟩
+      · rw [e]; exact (inRect_iff_SegMem hq1).mp hb
+      · rw [e]; exact (inRect_iff_SegMem hq2).mp hb
+    · rcases h2 with ⟨e, hb⟩ | ⟨e, hb⟩
+      · rw [e]; exact (inRect_iff_SegMem hp1).mp hb
+      · rw [e]; exact (inRect_iff_SegMem hp2).mp hb
+  · intro _ h1 h2 h3 h4 h
+    injection h with h; injection h with h _
+    rw [← h]; exact cascadePt_mem h1 h2 h3 h4
+  · intro _ h1 h2 a _ _ _ h
+    injection h with h; injection h with h _
+    rw [← h]; exact properPoint_mem h1 h2 a
+
+/-- [T] the exact intersection point of the proper case lies on both segments. -/
+theorem proper_point_on_both (p1 p2 q1 q2 x : Pt)
+    (h : lineIntersection p1 p2 q1 q2 = some (.single x true)) :
+    SegMem x p1 p2 ∧ SegMem x q1 q2 := by
+  have := li_single_on_both p1 p2 q1 q2 x true h
+  rwa [lineCoord_iff, lineCoord_iff] at this
+
+example : SegMem ⟨1, 1⟩ ⟨0, 0⟩ ⟨2, 2⟩ ∧ SegMem ⟨1, 1⟩ ⟨0, 2⟩ ⟨2, 0⟩ :=
+  proper_point_on_both _ _ _ _ _ ex_proper
+
+example : lineCoord ⟨0, 0⟩ ⟨2, 0⟩ ⟨1, 0⟩ = true ∧ lineCoord ⟨1, 0⟩ ⟨1, 1⟩ ⟨1, 0⟩ = true :=
+  li_single_on_both _ _ _ _ _ _ ex_improper
+
+/-- [T] the `is_proper` flag is set exactly when none of the four orientations is collinear. -/
+theorem li_proper_iff (p1 p2 q1 q2 x : Pt) (f : Bool)
+    (h : lineIntersection p1 p2 q1 q2 = some (.single x f)) :
+    f = true ↔ (orient p1 p2 q1 ≠ .col ∧ orient p1 p2 q2 ≠ .col ∧ orient q1 q2 p1 ≠ .col ∧
+      orient q1 q2 p2 ≠ .col) := by
+  simp only [Ne, orient_col_iff]
+  revert h
+  refine li_cases p1 p2 q1 q2 (fun r => r = some (.single x f) → (f = true ↔
+    (¬ cross p1 p2 q1 = 0 ∧ ¬ cross p1 p2 q2 = 0 ∧ ¬ cross q1 q2 p1 = 0 ∧ ¬ cross q1 q2 p2 = 0)))
+    ?_ ?_ ?_ ?_ ?_ ?_
+  · intro _ h; cases h
+  · intro _ _ h; cases h
+  · intro _ _ h; cases h
+  · intro _ hq1 _ _ _ h
+    rw [collinearIntersection_def] at h
+    obtain ⟨hf, _, _⟩ := colTable_single h
+    rw [hf]
+    constructor
+    · intro h; cases h
+    · intro h; exact absurd hq1 h.1
+  · intro _ _ _ _ h4 h
+    injection h with h; injection h with _ hf
+    rw [← hf]
+    constructor
+    · intro h; cases h
+    · rintro ⟨a, b, c, d⟩
+      rcases h4 with h | h | h | h
+      · exact absurd h a
+      · exact absurd h b
+      · exact absurd h c
+      · exact absurd h d
+  · intro _ _ _ a b c d h
+    injection h with h; injection h with _ hf
+    rw [← hf]
+    exact ⟨fun _ => ⟨a, b, c, d⟩, fun _ => rfl⟩
+
+example : orient ⟨0, 0⟩ ⟨2, 2⟩ ⟨0, 2⟩ ≠ .col ∧ orient ⟨0, 0⟩ ⟨2, 2⟩ ⟨2, 0⟩ ≠ .col ∧
+    orient ⟨0, 2⟩ ⟨2, 0⟩ ⟨0, 0⟩ ≠ .col ∧ orient ⟨0, 2⟩ ⟨2, 0⟩ ⟨2, 2⟩ ≠ .col :=
+  (li_proper_iff _ _ _ _ _ _ ex_proper).mp rfl
+
+/-- [T] both ends of a collinear overlap lie on both segments. -/
+theorem li_collinear_sub (p1 p2 q1 q2 x y : Pt)
+    (h : lineIntersection p1 p2 q1 q2 = some (.collinear x y)) :
+    lineCoord p1 p2 x = true ∧ lineCoord p1 p2 y = true ∧ lineCoord q1 q2 x = true ∧
+      lineCoord q1 q2 y = true := by
+  simp only [lineCoord_iff]
+  revert h
+  refine li_cases p1 p2 q1 q2 (fun r => r = some (.collinear x y) →
+    SegMem x p1 p2 ∧ SegMem y p1 p2 ∧ SegMem x q1 q2 ∧ SegMem y q1 q2) ?_ ?_ ?_ ?_ ?_ ?_
+  · intro _ h; cases h
+  · intro _ _ h; cases h
+  · intro _ _ h; cases h
+  · intro _ hq1 hq2 hp1 hp2 h
+    rw [collinearIntersection_def] at h
+    have ha := fun h => (inRect_iff_SegMem hq1).mp h
+    have hb := fun h => (inRect_iff_SegMem hq2).mp h
+    have hc := fun h => (inRect_iff_SegMem hp1).mp h
+    have hd := fun h => (inRect_iff_SegMem hp2).mp h
+    rcases colTable_collinear h with ⟨ex, ey, b1, b2⟩ | ⟨ex, ey, b1, b2⟩ | ⟨ex, ey, b1, b2, _⟩ |
+      ⟨ex, ey, b1, b2, _⟩ | ⟨ex, ey, b1, b2, _⟩ | ⟨ex, ey, b1, b2, _⟩ <;> rw [ex, ey]
+    · exact ⟨ha b1, hb b2, SegMem_left _ _, SegMem_right _ _⟩
+    · exact ⟨SegMem_left _ _, SegMem_right _ _, hc b1, hd b2⟩
+    · exact ⟨ha b1, SegMem_left _ _, SegMem_left _ _, hc b2⟩
+    · exact ⟨ha b1, SegMem_right _ _, SegMem_left _ _, hd b2⟩
+    · exact ⟨hb b1, SegMem_left _ _, SegMem_right _ _, hc b2⟩
+    · exact ⟨hb b1, SegMem_right _ _, SegMem_right _ _, hd b2⟩
+  · intro _ _ _ _ _ h
+    injection h with h; cases h
+  · intro _ _ _ _ _ _ _ h
+    injection h with h; cases h
+
+example : lineCoord ⟨0, 0⟩ ⟨2, 2⟩ ⟨1, 1⟩ = true ∧ lineCoord ⟨0, 0⟩ ⟨2, 2⟩ ⟨2, 2⟩ = true ∧
+    lineCoord ⟨1, 1⟩ ⟨3, 3⟩ ⟨1, 1⟩ = true ∧ lineCoord ⟨1, 1⟩ ⟨3, 3⟩ ⟨2, 2⟩ = true :=
+  li_collinear_sub _ _ _ _ _ _ ex_collinear
+
+/-- [T] a collinear answer happens only when all four end points are on one line. -/
+theorem li_collinear_all_collinear (p1 p2 q1 q2 x y : Pt)
+    (h : lineIntersection p1 p2 q1 q2 = some (.collinear x y)) :
+    orient p1 p2 q1 = .col ∧ orient p1 p2 q2 = .col ∧ orient q1 q2 p1 = .col ∧ orient q1 q2 p2 = .col := by
+  simp only [orient_col_iff]
+  revert h
+  refine li_cases p1 p2 q1 q2 (fun r => r = some (.collinear x y) →
+    cross p1 p2 q1 = 0 ∧ cross p1 p2 q2 = 0 ∧ cross q1 q2 p1 = 0 ∧ cross q1 q2 p2 = 0) ?_ ?_ ?_ ?_ ?_ ?_
+  · intro _ h; cases h
+  · intro _ _ h; cases h
+  · intro _ _ h; cases h
+  · intro _ a b c d _; exact ⟨a, b, c, d⟩
+  · intro _ _ _ _ _ h
+    injection h with h; cases h
+  · intro _ _ _ _ _ _ _ h
+    injection h with h; cases h
+
+example : orient ⟨0, 0⟩ ⟨2, 2⟩ ⟨1, 1⟩ = .col ∧ orient ⟨0, 0⟩ ⟨2, 2⟩ ⟨3, 3⟩ = .col ∧
+    orient ⟨1, 1⟩ ⟨3, 3⟩ ⟨0, 0⟩ = .col ∧ orient ⟨1, 1⟩ ⟨3, 3⟩ ⟨2, 2⟩ = .col :=
+  li_collinear_all_collinear _ _ _ _ _ _ ex_collinear
+
+/-- [T] For two segments of positive length a collinear overlap is never a single point.
+Full statement (no hypothesis on the operands): `= some (.collinear x y) → x ≠ y`; it is false on
+the pinned code for a zero-length operand lying on the other segment (known finding K12, witness
+`li_zero_length_witness`). -/
+theorem li_collinear_nondegenerate_partial (p1 p2 q1 q2 x y : Pt) (hp : p1 ≠ p2) (hq : q1 ≠ q2)
+    (h : lineIntersection p1 p2 q1 q2 = some (.collinear x y)) : x ≠ y := by
+  revert h
+  refine li_cases p1 p2 q1 q2 (fun r => r = some (.collinear x y) → x ≠ y) ?_ ?_ ?_ ?_ ?_ ?_
+  · intro _ h; cases h
+  · intro _ _ h; cases h
+  · intro _ _ h; cases h
+  · intro _ _ _ _ _ h
+    rw [collinearIntersection_def] at h
+    rcases colTable_collinear h with ⟨ex, ey, _, _⟩ | ⟨ex, ey, _, _⟩ | ⟨ex, ey, _, _, ne⟩ |
+      ⟨ex, ey, _, _, ne⟩ | ⟨ex, ey, _, _, ne⟩ | ⟨ex, ey, _, _, ne⟩ <;> rw [ex, ey]
+    · exact hq
+    · exact hp
+    all_goals exact ne
+  · intro _ _ _ _ _ h
+    injection h with h; cases h
+  · intro _ _ _ _ _ _ _ h
+    injection h with h; cases h
+
+example : (⟨1, 1⟩ : Pt) ≠ ⟨2, 2⟩ :=
+  li_collinear_nondegenerate_partial _ _ _ _ _ _ (by simp) (by simp) ex_collinear
+
+/-- [T] witness of known finding K12: a zero-length operand lying on the other segment yields a
+degenerate `Collinear` answer instead of an improper `SinglePoint`. -/
+theorem li_zero_length_witness :
+    lineIntersection ⟨1, 1⟩ ⟨1, 1⟩ ⟨0, 0⟩ ⟨2, 2⟩ = some (.collinear ⟨1, 1⟩ ⟨1, 1⟩) := by
+  norm_num [lineIntersection, lineBBox, SM.rectNew, rectRect, orient, cross, collinearIntersection,
+    rectCoord]
+  simp
+
+
+/-- [T] a single point answer is the *only* common point of the two segments
+(`S p ∩ S q = {x}`). -/
+theorem li_single_exact (p1 p2 q1 q2 x : Pt) (f : Bool)
+    (h : lineIntersection p1 p2 q1 q2 = some (.single x f)) (z : Pt) :
+    (SegMem z p1 p2 ∧ SegMem z q1 q2) ↔ z = x := by
+  obtain ⟨hx1, hx2⟩ := li_single_on_both p1 p2 q1 q2 x f h
+  rw [lineCoord_iff] at hx1 hx2
+  refine ⟨?_, fun e => by rw [e]; exact ⟨hx1, hx2⟩⟩
+  rintro ⟨hz1, hz2⟩
+  revert h
+  refine li_cases p1 p2 q1 q2 (fun r => r = some (.single x f) → z = x) ?_ ?_ ?_ ?_ ?_ ?_
+  · intro _ h; cases h
+  · intro _ _ h; cases h
+  · intro _ _ h; cases h
+  · intro _ a b c d h; exact col_single_exact a b c d h z hz1 hz2
+  · intro _ h1 h2 h3 _ _
+    exact unique_common (nonparallel h1 h2 h3).1 hz1.cross_eq_zero hz2.cross_eq_zero
+      hx1.cross_eq_zero hx2.cross_eq_zero
+  · intro _ h1 h2 a _ _ _ _
+    exact unique_common (nonparallel h1 h2 (fun h => a h.1)).1 hz1.cross_eq_zero hz2.cross_eq_zero
+      hx1.cross_eq_zero hx2.cross_eq_zero
+
+example (z : Pt) (h1 : SegMem z ⟨0, 0⟩ ⟨2, 0⟩) (h2 : SegMem z ⟨1, 0⟩ ⟨1, 1⟩) : z = ⟨1, 0⟩ :=
+  (li_single_exact _ _ _ _ _ _ ex_improper z).mp ⟨h1, h2⟩
+
+/-- [T] a collinear answer is *exactly* the common part of the two segments
+(`S p ∩ S q = S (x, y)`); together with `li_collinear_nondegenerate_partial` this is the
+`→` direction of DESIGN's `li_collinear_iff`. -/
+theorem li_collinear_exact (p1 p2 q1 q2 x y : Pt)
+    (h : lineIntersection p1 p2 q1 q2 = some (.collinear x y)) (z : Pt) :
+    (SegMem z p1 p2 ∧ SegMem z q1 q2) ↔ SegMem z x y := by
+  revert h
+  refine li_cases p1 p2 q1 q2 (fun r => r = some (.collinear x y) →
+    ((SegMem z p1 p2 ∧ SegMem z q1 q2) ↔ SegMem z x y)) ?_ ?_ ?_ ?_ ?_ ?_
+  · intro _ h; cases h
+  · intro _ _ h; cases h
+  · intro _ _ h; cases h
+  · intro _ a b c d h; exact col_overlap_exact a b c d h z
+  · intro _ _ _ _ _ h
+    injection h with h; cases h
+  · intro _ _ _ _ _ _ _ h
+    injection h with h; cases h
+
+example : SegMem ⟨3/2, 3/2⟩ ⟨0, 0⟩ ⟨2, 2⟩ ∧ SegMem ⟨3/2, 3/2⟩ ⟨1, 1⟩ ⟨3, 3⟩ :=
+  (li_collinear_exact _ _ _ _ _ _ ex_collinear _).mpr
+    ⟨1/2, by norm_num, by norm_num, by norm_num, by norm_num⟩
+
+/-- [T] the `is_proper` flag is set exactly when the point is none of the four end points
+(interior to both segments). -/
+theorem li_proper_iff_not_endpoint (p1 p2 q1 q2 x : Pt) (f : Bool)
+    (h : lineIntersection p1 p2 q1 q2 = some (.single x f)) :
+    f = true ↔ (x ≠ p1 ∧ x ≠ p2 ∧ x ≠ q1 ∧ x ≠ q2) := by
+  obtain ⟨hx1, hx2⟩ := li_single_on_both p1 p2 q1 q2 x f h
+  rw [lineCoord_iff] at hx1 hx2
+  constructor
+  · intro hf
+    have hp := (li_proper_iff p1 p2 q1 q2 x f h).mp hf
+    simp only [Ne, orient_col_iff] at hp
+    obtain ⟨a, b, c, d⟩ := hp
+    refine ⟨?_, ?_, ?_, ?_⟩ <;> intro e <;> rw [e] at hx1 hx2
+    · exact c hx2.cross_eq_zero
+    · exact d hx2.cross_eq_zero
+    · exact a hx1.cross_eq_zero
+    · exact b hx1.cross_eq_zero
+  · intro hne
+    cases f with
+    | true => rfl
+    | false =>
+      rcases li_improper_endpoint p1 p2 q1 q2 x h with e | e | e | e
+      · exact absurd e hne.1
+      · exact absurd e hne.2.1
+      · exact absurd e hne.2.2.1
+      · exact absurd e hne.2.2.2
+
+example : (⟨1, 1⟩ : Pt) ≠ ⟨0, 0⟩ ∧ (⟨1, 1⟩ : Pt) ≠ ⟨2, 2⟩ ∧ (⟨1, 1⟩ : Pt) ≠ ⟨0, 2⟩ ∧ (⟨1, 1⟩ : Pt) ≠ ⟨2, 0⟩ :=
+  (li_proper_iff_not_endpoint _ _ _ _ _ _ ex_proper).mp rfl
+
+/-- [T] `line_intersection(p, q)` and `line_intersection(q, p)` agree: same class, equal single
+points (same flag), collinear overlaps equal up to direction (`LIEquiv`). -/
+theorem li_symm (p1 p2 q1 q2 : Pt) :
+    LIEquiv (lineIntersection p1 p2 q1 q2) (lineIntersection q1 q2 p1 p2) := by
+  refine li_cases p1 p2 q1 q2 (fun r => LIEquiv r (lineIntersection q1 q2 p1 p2)) ?_ ?_ ?_ ?_ ?_ ?_
+  · intro hb
+    rw [boxMeet_symm] at hb
+    rw [li_none_of_box hb]; trivial
+  · intro _ hs
+    rw [li_none_of_sameStrict_q hs]; trivial
+  · intro _ hs
+    rw [li_none_of_sameStrict_p hs]; trivial
+  · intro hb hq1 hq2 hp1 hp2
+    rw [boxMeet_symm] at hb
+    rw [li_eq_col hb hp1 hp2 hq1 hq2, collinearIntersection_def, collinearIntersection_def]
+    by_cases hall : pointInRect q1 p1 p2 = true ∧ pointInRect q2 p1 p2 = true ∧
+        pointInRect p1 q1 q2 = true ∧ pointInRect p2 q1 q2 = true
+    · obtain ⟨ha, hb', hc, hd⟩ := hall
+      have := col_all_bits hq1 hq2 hp1 hp2 ha hb' hc hd
+      rw [ha, hb', hc, hd, colTable_all, colTable_all]
+      exact this
+    · exact colTable_symm _ _ _ _ _ _ _ _ hall
+  · intro hb h1 h2 h3 h4
+    rw [boxMeet_symm] at hb
+    have h3' : ¬ (cross q1 q2 p1 = 0 ∧ cross q1 q2 p2 = 0 ∧ cross p1 p2 q1 = 0 ∧ cross p1 p2 q2 = 0) :=
+      fun h => h3 ⟨h.2.2.1, h.2.2.2, h.1, h.2.1⟩
+    have h4' : cross q1 q2 p1 = 0 ∨ cross q1 q2 p2 = 0 ∨ cross p1 p2 q1 = 0 ∨ cross p1 p2 q2 = 0 := by
+      rcases h4 with h | h | h | h
+      · exact Or.inr (Or.inr (Or.inl h))
+      · exact Or.inr (Or.inr (Or.inr h))
+      · exact Or.inl h
+      · exact Or.inr (Or.inl h)
+    rw [li_eq_improper hb h2 h1 h3' h4']
+    obtain ⟨m1, m2⟩ := cascadePt_mem h1 h2 h3 h4
+    obtain ⟨m3, m4⟩ := cascadePt_mem h2 h1 h3' h4'
+    exact ⟨unique_common (nonparallel h1 h2 h3).1 m1.cross_eq_zero m2.cross_eq_zero
+      m4.cross_eq_zero m3.cross_eq_zero, rfl⟩
+  · intro hb h1 h2 a b c d
+    rw [boxMeet_symm] at hb
+    rw [li_eq_proper hb h2 h1 c d a b]
+    obtain ⟨m1, m2⟩ := properPoint_mem h1 h2 a
+    obtain ⟨m3, m4⟩ := properPoint_mem h2 h1 c
+    exact ⟨unique_common (nonparallel h1 h2 (fun h => a h.1)).1 m1.cross_eq_zero m2.cross_eq_zero
+      m4.cross_eq_zero m3.cross_eq_zero, rfl⟩
 
 end Geo.Proofs.C11
